@@ -43,11 +43,22 @@ def derive(src_text, annotated_text):
     b = annotated_text.split('\n')
     an = [_norm(x) for x in a]
     bn = [_norm(x) for x in b]
-    sm = difflib.SequenceMatcher(a=an, b=bn, autojunk=False)
     ops = []
+    # signature: source lines up to the first one ending in '{'; annotated header up to the first line that is '{'
+    k = 0
+    while not _norm(_strip_comment(a[k])).endswith('{'):
+        k += 1
+    jj = 0
+    while bn[jj] != '{':
+        jj += 1
+    off_a, off_b = 0, 0
+    if '\n'.join(an[:k + 1]) != '\n'.join(bn[:jj + 1]):
+        ops.append({'op': 'header', 'count': k + 1, 'text': '\n'.join(b[:jj])})
+        off_a, off_b = k + 1, jj + 1
+    sm = difflib.SequenceMatcher(a=an[off_a:], b=bn[off_b:], autojunk=False)
 
     def nth_of(idx):
-        return sum(1 for k in range(idx) if an[k] == an[idx])
+        return sum(1 for q in range(idx) if an[q] == an[idx])
 
     def ins_after(idx, lines):
         if not lines:
@@ -55,8 +66,13 @@ def derive(src_text, annotated_text):
         if idx < 0:
             ops.append({'op': 'insert', 'after': '', 'nth': 0, 'line': -1, 'text': '\n'.join(lines)})
         else:
-            ops.append({'op': 'insert', 'after': an[idx], 'nth': nth_of(idx), 'line': idx, 'text': '\n'.join(lines)})
+            op = {'op': 'insert', 'after': an[idx], 'nth': nth_of(idx), 'line': idx, 'text': '\n'.join(lines)}
+            if idx + 1 < len(an):
+                op['before'] = an[idx + 1]
+                op['before_nth'] = nth_of(idx + 1)
+            ops.append(op)
     for tag, i1, i2, j1, j2 in sm.get_opcodes():
+        i1 += off_a; i2 += off_a; j1 += off_b; j2 += off_b
         if tag == 'equal':
             continue
         if tag == 'insert':
@@ -64,55 +80,34 @@ def derive(src_text, annotated_text):
             continue
         if tag == 'delete':
             raise ValueError('overlay would delete source lines %s' % an[i1:i2])
-        # replace
-        if i1 == 0:
-            # signature: source lines up to and including the one ending in '{'
-            k = i1
-            while not an[k].endswith('{'):
-                k += 1
-            if k >= i2:
-                raise ValueError('header replace does not cover the signature: %s' % an[i1:i2])
-            # annotated header ends at the first line that is exactly '{'
-            jj = j1
-            while bn[jj] != '{':
-                jj += 1
-            ops.append({'op': 'header', 'count': k + 1, 'text': '\n'.join(b[j1:jj])})
-            rest_src = list(range(k + 1, i2))
-            rest_b = b[jj + 1:j2]
-            if rest_src:
-                raise ValueError('header replace also covers body lines %s' % [an[x] for x in rest_src])
-            ins_after(k, rest_b)
-            continue
-        # body: walk the source lines of the block; each must be a loop header that reappears transformed
+        # replace in the body: every source line of the block must be a loop header that reappears transformed
         jpos = j1
         for idx in range(i1, i2):
             L = an[idx]
             if not _is_loop_line(L):
                 raise ValueError('overlay would rewrite source line /%s/ -> /%s/' % (L, bn[j1:j2][:3]))
-            # find the transformed header in b[jpos:j2]
             found = None
             plain = _norm(_loop_header(a[idx], None))
             try:
                 pat = re.compile('^' + re.escape(_norm(_loop_header(a[idx], 'ITNAMEPLACEHOLDER'))).replace('ITNAMEPLACEHOLDER', r'(\w+)') + '$')
             except ValueError:
                 pat = None
-            for jj in range(jpos, j2):
-                if bn[jj] == plain:
-                    found = (jj, None)
+            for q in range(jpos, j2):
+                if bn[q] == plain:
+                    found = (q, None)
                     break
-                m = pat.match(bn[jj]) if pat else None
+                m = pat.match(bn[q]) if pat else None
                 if m:
-                    found = (jj, m.group(1))
+                    found = (q, m.group(1))
                     break
             if not found:
                 raise ValueError('loop header /%s/ not found in annotated block' % L)
-            jj, it = found
-            ins_after(idx - 1, b[jpos:jj])
-            # spec lines up to the '{'
-            kk = jj + 1
+            q, it = found
+            ins_after(idx - 1, b[jpos:q])
+            kk = q + 1
             while bn[kk] != '{':
                 kk += 1
-            ops.append({'op': 'loop', 'at': L, 'nth': nth_of(idx), 'line': idx, 'itname': it, 'spec': '\n'.join(b[jj + 1:kk])})
+            ops.append({'op': 'loop', 'at': L, 'nth': nth_of(idx), 'line': idx, 'itname': it, 'spec': '\n'.join(b[q + 1:kk])})
             jpos = kk + 1
         ins_after(i2 - 1, b[jpos:j2])
     return {'src_lines': len(a), 'ops': ops}
@@ -178,7 +173,14 @@ def apply(src_text, overlay, notes=None):
             if op['after'] == '' and op['line'] == -1:
                 idx = -1
             else:
-                idx = _locate(an, op['after'], op['nth'], op['line'], overlay['src_lines'], notes)
+                try:
+                    idx = _locate(an, op['after'], op['nth'], op['line'], overlay['src_lines'], notes)
+                except AnchorLost:
+                    # the anchored line is gone: hang the ghost text in front of the line that used to follow it
+                    if 'before' not in op:
+                        raise
+                    idx = _locate(an, op['before'], op['before_nth'], op['line'] + 1, overlay['src_lines'], notes) - 1
+                    notes.append('anchor line gone, inserted before /%s/' % op['before'][:40])
             inserts.setdefault(idx, []).append(op['text'])
         elif op['op'] == 'loop':
             idx = _locate(an, op['at'], op['nth'], op['line'], overlay['src_lines'], notes)
